@@ -249,3 +249,16 @@ Theorem C02_untaken_branch_is_silent : forall P eB pB bB c t f m ty E o b E0 o0 
     Ok ((if b then tw else fw, if b then ET else EF), if b then oT else oF).
 Proof. exact tsem_if_selects. Qed.
 Print Assumptions C02_untaken_branch_is_silent.
+
+(* short-circuited operands are silent in the bit-level semantics: neither their panics nor their
+   assignments are visible (statements in Compile/TSemControl.v) *)
+From GV Require Import Compile.TSemControl.
+Theorem C02_bitsem_tsem_land_short_circuit : ltac:(let T := type of tsem_land_short_circuit in exact T).
+Proof. exact tsem_land_short_circuit. Qed.
+Print Assumptions C02_bitsem_tsem_land_short_circuit.
+Theorem C02_bitsem_tsem_lor_short_circuit : ltac:(let T := type of tsem_lor_short_circuit in exact T).
+Proof. exact tsem_lor_short_circuit. Qed.
+Print Assumptions C02_bitsem_tsem_lor_short_circuit.
+Theorem C02_bitsem_tsem_match_first : ltac:(let T := type of tsem_match_first in exact T).
+Proof. exact tsem_match_first. Qed.
+Print Assumptions C02_bitsem_tsem_match_first.
